@@ -38,6 +38,8 @@ def run(chk, ctx) -> None:
     # ... and the division every variant is built with is the package's own (exact quotient, remainder by the smallest unit)
     from .helpers import default_helpers
     default_helpers(chk, ctx, 'C02.amounts', ['state', 'games', 'notation'])
+    from .c01 import _helpers
+    _helpers(Refile(chk, {'C01.helpers': 'C02.amounts'}, only=lambda r, c: c == 'utilities.divmod'), ctx)
     chk.floor('C02.amounts', 18)
     # "the strongest hand": the hand a player takes to the showdown is the one Hand.from_game forms (C05's search clauses)
     from . import c05
